@@ -186,6 +186,21 @@ def packedBits (op : BitOp) (l r : List Nat) (boff blen : Nat) : List Nat :=
     let k := 8 * bi + b
     if k < blen then op.apply (getBit l (boff + k)) (getBit r k) else false))
 
+/-! ### exporting a validity bitmap (`align_nulls`, arrow-data/src/ffi.rs)
+
+The C Data Interface has one `offset` per array, so `FFI_ArrowArray::new` must hand out a
+validity bitmap whose bit `data_offset + i` is the validity of element `i`, whatever bit offset
+the array's own `NullBuffer` has.  Bitmaps are lists of bits here (bit `k` of the buffer). -/
+
+/-- `align_nulls(data_offset, Some(nulls))`, `nulls` = bits `[nullsOff, nullsOff + len)` of the
+buffer `vb`: the same buffer when the offsets agree; `nulls.inner().sliced()` (the range moved
+to bit 0) when the data offset is 0; otherwise a new zeroed bitmap of `data_offset + len` bits
+into which `set_bits` copies the range at `data_offset`. -/
+def alignNullsBits (dataOff : Nat) (vb : List Bool) (nullsOff len : Nat) : List Bool :=
+  if dataOff = nullsOff then vb
+  else if dataOff = 0 then (vb.drop nullsOff).take len
+  else List.replicate dataOff false ++ (vb.drop nullsOff).take len
+
 /-! ### operations -/
 
 def Region.isStandard (reg : Region) : Bool :=
